@@ -209,7 +209,8 @@ class C02Oracle(BaseOracle):
             if bad:
                 return self.v("first-observation-only-seeds",
                               "first explain_one made call-outs %r" % (bad[:6],), explainer=k)
-            if e.importance_values:
+            # "started at zero": before the first estimate the values are either absent or exactly zero
+            if any(not (val == 0) for val in e.importance_values.values()):
                 return self.v("first-observation-only-seeds",
                               "importance values %r after the first observation" % (e.importance_values,),
                               explainer=k)
